@@ -80,6 +80,13 @@ theorem bind_eq_panic {x : Outcome ε α} {f : α → Outcome ε β} {t : String
   | err e => cases h
   | panic s => left; simpa using h
 
+theorem bind_eq_err {x : Outcome ε α} {f : α → Outcome ε β} {e : ε}
+    (h : x.bind f = .err e) : x = .err e ∨ ∃ a, x = .ok a ∧ f a = .err e := by
+  cases x with
+  | ok a => exact Or.inr ⟨a, rfl, h⟩
+  | err e' => left; simpa using h
+  | panic s => cases h
+
 @[simp] theorem isPanic_ok (a : α) : (ok a : Outcome ε α).isPanic = false := rfl
 @[simp] theorem isPanic_err (e : ε) : (err e : Outcome ε α).isPanic = false := rfl
 @[simp] theorem isPanic_panic (t : String) : (panic t : Outcome ε α).isPanic = true := rfl
@@ -662,10 +669,71 @@ theorem nth_eq_ok {T : Type} {xs : List T} {i : Nat} {x : T}
   · cases h; assumption
   · cases h
 
+/-! `bound`: the element at a selected rank, checked for comparability with itself -/
+
+omit [Scalar W] in
+/-- inside the slice `bound` is the element when it is comparable with itself, `InvalidInputData`
+    when it is not (a NaN) -/
+theorem bound_of_lt {T : Type} [Cmp T] (xs : List T) {i : Nat} (h : i < xs.length) :
+    (bound xs i : Outcome (Err W) T) =
+      if le xs[i] xs[i] then .ok xs[i] else .err .invalidInputData := by
+  unfold bound
+  rw [nth_of_lt xs h]; rfl
+
+omit [Scalar W] in
+theorem bound_isPanic_of_lt {T : Type} [Cmp T] (xs : List T) {i : Nat} (h : i < xs.length) :
+    (bound xs i : Outcome (Err W) T).isPanic = false := by
+  rw [bound_of_lt xs h]; split <;> rfl
+
+omit [Scalar W] in
+theorem bound_of_le {T : Type} [Cmp T] {xs : List T} {i : Nat} {x : T} (h : xs[i]? = some x)
+    (hx : le x x = true) : (bound xs i : Outcome (Err W) T) = .ok x := by
+  simp [bound, nth, h, hx]
+
+omit [Scalar W] in
+theorem bound_of_not_le {T : Type} [Cmp T] {xs : List T} {i : Nat} {x : T} (h : xs[i]? = some x)
+    (hx : le x x = false) : (bound xs i : Outcome (Err W) T) = .err .invalidInputData := by
+  simp [bound, nth, h, hx]
+
+omit [Scalar W] in
+/-- an `Ok` of `bound` is the element of the slice at that rank, and it is comparable with itself -/
+theorem bound_eq_ok {T : Type} [Cmp T] {xs : List T} {i : Nat} {x : T}
+    (h : (bound xs i : Outcome (Err W) T) = .ok x) : xs[i]? = some x ∧ le x x = true := by
+  unfold bound at h
+  obtain ⟨y, hy, h⟩ := Outcome.bind_eq_ok h
+  by_cases hyy : le y y = true
+  · rw [if_pos hyy] at h; cases h; exact ⟨nth_eq_ok hy, hyy⟩
+  · rw [if_neg hyy] at h; cases h
+
+omit [Scalar W] in
+/-- the only error of `bound` is `InvalidInputData`, on an element not comparable with itself -/
+theorem bound_eq_err {T : Type} [Cmp T] {xs : List T} {i : Nat} {e : Err W}
+    (h : (bound xs i : Outcome (Err W) T) = .err e) :
+    e = .invalidInputData ∧ ∃ x, xs[i]? = some x ∧ le x x = false := by
+  unfold bound at h
+  rcases Outcome.bind_eq_err h with h | ⟨y, hy, h⟩
+  · unfold nth at h; split at h <;> cases h
+  · by_cases hyy : le y y = true
+    · rw [if_pos hyy] at h; cases h
+    · rw [if_neg hyy] at h; cases h; exact ⟨rfl, y, nth_eq_ok hy, by simpa using hyy⟩
+
 theorem ciSortedUnchecked_of_bad_q {T : Type} [Cmp T] (crit : Crit W) (conf : Confidence W)
     (sorted : List T) {q : W} (h : (gt q (zero : W) && lt q (one : W)) = false) :
     ciSortedUnchecked crit conf sorted q = .err (.invalidQuantile q) := by
   simp [ciSortedUnchecked, h]
+
+/-- past the quantile check `ci_sorted_unchecked` looks the ranks of `ci_indices` up through `bound` -/
+theorem ciSortedUnchecked_of_good_q {T : Type} [Cmp T] (crit : Crit W) (conf : Confidence W)
+    (sorted : List T) {q : W} (h : (gt q (zero : W) && lt q (one : W)) = true) :
+    ciSortedUnchecked crit conf sorted q =
+      (ciIndices crit conf sorted.length q).bind fun idx =>
+        match idx with
+        | .twoSided lo hi =>
+            (bound sorted lo).bind fun a => (bound sorted hi).bind fun b => liftI (Interval.new a b)
+        | .upper lo => (bound sorted lo).bind fun a => .ok (.upper a)
+        | .lower hi => (bound sorted hi).bind fun b => .ok (.lower b) := by
+  unfold ciSortedUnchecked
+  rw [if_neg (by simp [h])]; rfl
 
 /-- element access never leaves the slice: the indices come out of `index`, which clamps at
     `n − 1`, and `n ≥ 4` -/
@@ -679,21 +747,48 @@ theorem ciSortedUnchecked_isPanic {T : Type} [Cmp T] (crit : Crit W) (conf : Con
   obtain ⟨_, hn, hok⟩ := ciIndices_eq_ok hidx
   cases conf <;> cases idx <;> simp only [IdxOk] at hok <;> dsimp only
   · rename_i l lo hi
-    rw [nth_of_lt sorted (show lo < sorted.length by omega),
-      nth_of_lt sorted (show hi < sorted.length by omega)]
+    refine Outcome.isPanic_bind
+      (bound_isPanic_of_lt sorted (show lo < sorted.length by omega)) fun a _ => ?_
+    refine Outcome.isPanic_bind
+      (bound_isPanic_of_lt sorted (show hi < sorted.length by omega)) fun b _ => ?_
     exact liftI_isPanic _
   · rename_i l lo
-    rw [nth_of_lt sorted (show lo < sorted.length by omega)]; rfl
+    exact Outcome.isPanic_bind
+      (bound_isPanic_of_lt sorted (show lo < sorted.length by omega)) fun a _ => rfl
   · rename_i l hi
-    rw [nth_of_lt sorted (show hi < sorted.length by omega)]; rfl
+    exact Outcome.isPanic_bind
+      (bound_isPanic_of_lt sorted (show hi < sorted.length by omega)) fun b _ => rfl
 
-/-- the shape of an `Ok` result: elements of the slice at the computed positions, `¬ lo > hi` -/
+/-- the shape of an `Ok` result: elements of the slice at the computed positions, each comparable
+    with itself (on floats: not a NaN), `¬ lo > hi` -/
 def PickOk {T : Type} [Cmp T] (sorted : List T) (idx : Interval Nat) (i : Interval T) : Prop :=
   match idx, i with
-  | .twoSided lo hi, .twoSided a b => sorted[lo]? = some a ∧ sorted[hi]? = some b ∧ gt a b = false
-  | .upper lo, .upper a => sorted[lo]? = some a
-  | .lower hi, .lower b => sorted[hi]? = some b
+  | .twoSided lo hi, .twoSided a b =>
+      sorted[lo]? = some a ∧ sorted[hi]? = some b ∧ gt a b = false ∧ le a a = true ∧ le b b = true
+  | .upper lo, .upper a => sorted[lo]? = some a ∧ le a a = true
+  | .lower hi, .lower b => sorted[hi]? = some b ∧ le b b = true
   | _, _ => False
+
+/-- every bound is comparable with itself (on floats: no bound is a NaN) -/
+def SelfCmp {T : Type} [Cmp T] : Interval T → Prop
+  | .twoSided a b => le a a = true ∧ le b b = true
+  | .upper a => le a a = true
+  | .lower b => le b b = true
+
+/-- the ranks an index interval selects -/
+def Selects (idx : Interval Nat) (r : Nat) : Prop :=
+  match idx with
+  | .twoSided lo hi => r = lo ∨ r = hi
+  | .upper lo => r = lo
+  | .lower hi => r = hi
+
+omit [Scalar W] in
+theorem PickOk.selfCmp {T : Type} [Cmp T] {sorted : List T} {idx : Interval Nat} {i : Interval T}
+    (h : PickOk sorted idx i) : SelfCmp i := by
+  cases idx <;> cases i <;> simp only [PickOk, SelfCmp] at h ⊢
+  · exact h.2.2.2
+  · exact h.2
+  · exact h.2
 
 theorem ciSortedUnchecked_eq_ok {T : Type} [Cmp T] {crit : Crit W} {conf : Confidence W}
     {sorted : List T} {q : W} {i : Interval T} (h : ciSortedUnchecked crit conf sorted q = .ok i) :
@@ -707,11 +802,84 @@ theorem ciSortedUnchecked_eq_ok {T : Type} [Cmp T] {crit : Crit W} {conf : Confi
   · obtain ⟨a, ha, h⟩ := Outcome.bind_eq_ok h
     obtain ⟨b, hb, h⟩ := Outcome.bind_eq_ok h
     obtain ⟨rfl, hg⟩ := liftI_new_eq_ok h
-    exact ⟨nth_eq_ok ha, nth_eq_ok hb, hg⟩
+    exact ⟨(bound_eq_ok ha).1, (bound_eq_ok hb).1, hg, (bound_eq_ok ha).2, (bound_eq_ok hb).2⟩
   · obtain ⟨a, ha, h⟩ := Outcome.bind_eq_ok h
-    cases h; exact nth_eq_ok ha
+    cases h; exact bound_eq_ok ha
   · obtain ⟨a, ha, h⟩ := Outcome.bind_eq_ok h
-    cases h; exact nth_eq_ok ha
+    cases h; exact bound_eq_ok ha
+
+/-- whatever the slice holds — sorted or not, with or without incomparable elements — an `Ok` of
+    `ci_sorted_unchecked` never has a bound that is not comparable with itself -/
+theorem ciSortedUnchecked_ok_selfCmp {T : Type} [Cmp T] {crit : Crit W} {conf : Confidence W}
+    {sorted : List T} {q : W} {i : Interval T} (h : ciSortedUnchecked crit conf sorted q = .ok i) :
+    SelfCmp i := by
+  obtain ⟨_, _, hp⟩ := ciSortedUnchecked_eq_ok h
+  exact hp.selfCmp
+
+/-- an element at a selected rank that is not comparable with itself: `InvalidInputData` -/
+theorem ciSortedUnchecked_of_incomparable {T : Type} [Cmp T] {crit : Crit W} {conf : Confidence W}
+    {sorted : List T} {q : W} {idx : Interval Nat} {r : Nat} {x : T}
+    (hidx : ciIndices crit conf sorted.length q = .ok idx) (hr : Selects idx r)
+    (hx : sorted[r]? = some x) (hxx : le x x = false) :
+    ciSortedUnchecked crit conf sorted q = .err .invalidInputData := by
+  obtain ⟨hq, hn, hok⟩ := ciIndices_eq_ok hidx
+  rw [ciSortedUnchecked_of_good_q crit conf sorted hq, hidx, Outcome.bind_ok]
+  cases idx <;> simp only [Selects] at hr <;> dsimp only
+  · rename_i lo hi
+    rcases hr with rfl | rfl
+    · rw [bound_of_not_le hx hxx]; rfl
+    · have hlo : lo < sorted.length := by
+        cases conf <;> simp only [IdxOk] at hok
+        omega
+      rw [bound_of_lt sorted hlo]
+      split
+      · rw [Outcome.bind_ok, bound_of_not_le hx hxx]; rfl
+      · rfl
+  · subst hr; rw [bound_of_not_le hx hxx]; rfl
+  · subst hr; rw [bound_of_not_le hx hxx]; rfl
+
+/-- every error of `ci_sorted_unchecked` is an error of the index computation, or
+    `InvalidInputData` for an element at a selected rank that is not comparable with itself, or
+    `InvalidBounds` for a two-sided pick with `lo > hi` (a slice that was not sorted) -/
+theorem ciSortedUnchecked_eq_err {T : Type} [Cmp T] {crit : Crit W} {conf : Confidence W}
+    {sorted : List T} {q : W} {e : Err W} (h : ciSortedUnchecked crit conf sorted q = .err e) :
+    ciIndices crit conf sorted.length q = .err e ∨
+    ∃ idx, ciIndices crit conf sorted.length q = .ok idx ∧
+      ((e = .invalidInputData ∧ ∃ r x, Selects idx r ∧ sorted[r]? = some x ∧ le x x = false) ∨
+       (e = .interval .invalidBounds ∧ ∃ lo hi a b, idx = .twoSided lo hi ∧
+          sorted[lo]? = some a ∧ sorted[hi]? = some b ∧ gt a b = true)) := by
+  by_cases hq : (gt q (zero : W) && lt q (one : W)) = true
+  swap
+  · have hq : (gt q (zero : W) && lt q (one : W)) = false := by simpa using hq
+    rw [ciSortedUnchecked_of_bad_q crit conf sorted hq] at h
+    rw [ciIndices_of_bad_q crit conf _ hq]
+    cases h; exact Or.inl rfl
+  rw [ciSortedUnchecked_of_good_q crit conf sorted hq] at h
+  rcases Outcome.bind_eq_err h with h | ⟨idx, hidx, h⟩
+  · exact Or.inl h
+  refine Or.inr ⟨idx, hidx, ?_⟩
+  cases idx <;> dsimp only at h
+  · rename_i lo hi
+    rcases Outcome.bind_eq_err h with h | ⟨a, ha, h⟩
+    · obtain ⟨rfl, x, hx, hxx⟩ := bound_eq_err h
+      exact Or.inl ⟨rfl, lo, x, Or.inl rfl, hx, hxx⟩
+    rcases Outcome.bind_eq_err h with h | ⟨b, hb, h⟩
+    · obtain ⟨rfl, x, hx, hxx⟩ := bound_eq_err h
+      exact Or.inl ⟨rfl, hi, x, Or.inr rfl, hx, hxx⟩
+    rcases liftI_new_cases (W := W) a b with ⟨h', _⟩ | ⟨h', hg⟩
+    · rw [h'] at h; cases h
+    · rw [h'] at h; cases h
+      exact Or.inr ⟨rfl, lo, hi, a, b, rfl, (bound_eq_ok ha).1, (bound_eq_ok hb).1, hg⟩
+  · rename_i lo
+    rcases Outcome.bind_eq_err h with h | ⟨a, _, h⟩
+    · obtain ⟨rfl, x, hx, hxx⟩ := bound_eq_err h
+      exact Or.inl ⟨rfl, lo, x, rfl, hx, hxx⟩
+    · cases h
+  · rename_i hi
+    rcases Outcome.bind_eq_err h with h | ⟨a, _, h⟩
+    · obtain ⟨rfl, x, hx, hxx⟩ := bound_eq_err h
+      exact Or.inl ⟨rfl, hi, x, rfl, hx, hxx⟩
+    · cases h
 
 omit [Scalar W] in
 theorem sortData_isPanic_iff {T : Type} [Cmp T] (xs : List T) :
@@ -1074,11 +1242,22 @@ def s2n (a : Arith F) : F := div (mul a.stdDev a.stdDev) (Scalar.ofNat a.count)
 def meanDiff (u : Unpaired F) : F := sub u.a.mean u.b.mean
 /-- the standard error of the difference -/
 def semF (u : Unpaired F) : F := sqrt (add (s2n u.a) (s2n u.b))
-/-- the effective degrees of freedom `ci_mean` hands on -/
+/-- the effective degrees of freedom evaluated in the data type `F`. (`ci_mean` evaluates them in the
+    wide type, `dofW`; on a carrier with `F = W` and the identity `Widen` the two agree,
+    `dofW_eq_dofF_RR`, `dofW_eq_dofF_XR`.) -/
 def dofF (u : Unpaired F) : F :=
   effectiveDof (s2n u.a) (s2n u.b) (Scalar.ofNat u.a.count) (Scalar.ofNat u.b.count)
+/-- the effective degrees of freedom `ci_mean` hands on: evaluated in the wide type `W` from the
+    widened variance terms `s²/n` and the widened counts -/
+def dofW (u : Unpaired F) : W :=
+  effectiveDof (Widen.up (s2n u.a)) (Widen.up (s2n u.b))
+    (Widen.up (Scalar.ofNat u.a.count : F)) (Widen.up (Scalar.ofNat u.b.count : F))
 
-omit [Scalar W] in
+/-- on rounded (and exact) reals the wide type is the data type: both evaluations agree -/
+theorem dofW_eq_dofF_RR {fl : ℝ → ℝ} (u : Unpaired (RR fl)) : (dofW u : RR fl) = dofF u := rfl
+/-- on extended reals the wide type is the data type: both evaluations agree -/
+theorem dofW_eq_dofF_XR (u : Unpaired XR) : (dofW u : XR) = dofF u := rfl
+
 theorem ciPrep_cases (u : Unpaired F) :
     (u.a.count < 2 ∧ (ciPrep u : Outcome (Err W) (Arith.Prep W)) = .err (.tooFewSamples u.a.count)) ∨
     (2 ≤ u.a.count ∧ u.b.count < 2 ∧
@@ -1088,7 +1267,7 @@ theorem ciPrep_cases (u : Unpaired F) :
       (ciPrep u : Outcome (Err W) (Arith.Prep W)) = .err .invalidInputData) ∨
     (2 ≤ u.a.count ∧ 2 ≤ u.b.count ∧ isFinite (meanDiff u) = true ∧ isFinite (semF u) = true ∧
       (ciPrep u : Outcome (Err W) (Arith.Prep W)) =
-        .ok ⟨Widen.up (meanDiff u), Widen.up (semF u), Widen.up (dofF u)⟩) := by
+        .ok ⟨Widen.up (meanDiff u), Widen.up (semF u), dofW u⟩) := by
   by_cases ha : u.a.count < 2
   · exact Or.inl ⟨ha, by simp [ciPrep, ha]⟩
   by_cases hb : u.b.count < 2
@@ -1098,7 +1277,7 @@ theorem ciPrep_cases (u : Unpaired F) :
     · refine Or.inr (Or.inr (Or.inr ⟨by omega, by omega, hm, hs, ?_⟩))
       unfold meanDiff at hm
       unfold semF s2n at hs
-      simp [ciPrep, ha, hb, hm, hs, meanDiff, semF, dofF, s2n]
+      simp [ciPrep, ha, hb, hm, hs, meanDiff, semF, dofW, s2n]
     · refine Or.inr (Or.inr (Or.inl ⟨by omega, by omega, Or.inr (by simpa using hs), ?_⟩))
       unfold semF s2n at hs
       simp [ciPrep, ha, hb, hs]
@@ -1109,7 +1288,7 @@ theorem ciPrep_cases (u : Unpaired F) :
 theorem ciPrep_eq_ok {u : Unpaired F} {p : Arith.Prep W}
     (h : (ciPrep u : Outcome (Err W) (Arith.Prep W)) = .ok p) :
     2 ≤ u.a.count ∧ 2 ≤ u.b.count ∧ isFinite (meanDiff u) = true ∧ isFinite (semF u) = true ∧
-    p = ⟨Widen.up (meanDiff u), Widen.up (semF u), Widen.up (dofF u)⟩ := by
+    p = ⟨Widen.up (meanDiff u), Widen.up (semF u), dofW u⟩ := by
   rcases ciPrep_cases (W := W) u with ⟨_, h'⟩ | ⟨_, _, h'⟩ | ⟨_, _, _, h'⟩ | ⟨h1, h2, h3, h4, h'⟩ <;>
     rw [h'] at h <;> cases h
   exact ⟨h1, h2, h3, h4, rfl⟩
@@ -1123,8 +1302,8 @@ theorem ciPrep_isPanic (u : Unpaired F) :
 theorem ciMean_isPanic_iff (crit : Crit W) (u : Unpaired F) (conf : Confidence W) :
     (ciMean crit u conf).isPanic = true ↔
       2 ≤ u.a.count ∧ 2 ≤ u.b.count ∧ isFinite (meanDiff u) = true ∧ isFinite (semF u) = true ∧
-      ((lt (Widen.up (dofF u) : W) (populationLimit : W) = true ∧
-          gt (Widen.up (dofF u) : W) (zero : W) = false) ∨
+      ((lt (dofW u : W) (populationLimit : W) = true ∧
+          gt (dofW u : W) (zero : W) = false) ∨
         probOk conf.quantile = false) := by
   unfold ciMean
   rcases ciPrep_cases (W := W) u with ⟨h1, h'⟩ | ⟨h1, h2, h'⟩ | ⟨h1, h2, h3, h'⟩ | ⟨h1, h2, h3, h4, h'⟩ <;>
@@ -1135,21 +1314,21 @@ theorem ciMean_isPanic_iff (crit : Crit W) (u : Unpaired F) (conf : Confidence W
   · simp only [Outcome.bind_ok, h1, h2, h3, h4, true_and]
     rw [← intervalBounds_isPanic_iff crit conf (Widen.up (meanDiff u) : W) (Widen.up (semF u) : W)]
     cases hb : intervalBounds crit conf (Widen.up (meanDiff u) : W) (Widen.up (semF u) : W)
-        (Widen.up (dofF u) : W) with
+        (dofW u : W) with
     | ok b => simp [intervalOfKind_isPanic]
     | err e' => simp
     | panic t => simp
 
 /-- the critical value `Unpaired::ci_mean` uses on a state that passes the guards -/
 def critOf (crit : Crit W) (u : Unpaired F) (conf : Confidence W) : W :=
-  crit (critReq conf (Widen.up (dofF u)))
+  crit (critReq conf (dofW u))
 
 /-- closed form of `Unpaired::ci_mean` on a state that passes the guards -/
 theorem ciMean_eq (crit : Crit W) (u : Unpaired F) (conf : Confidence W)
     (h1 : 2 ≤ u.a.count) (h2 : 2 ≤ u.b.count) (h3 : isFinite (meanDiff u) = true)
     (h4 : isFinite (semF u) = true) (hq : probOk conf.quantile = true)
-    (hd : lt (Widen.up (dofF u) : W) (populationLimit : W) = true →
-      gt (Widen.up (dofF u) : W) (zero : W) = true) :
+    (hd : lt (dofW u : W) (populationLimit : W) = true →
+      gt (dofW u : W) (zero : W) = true) :
     ciMean crit u conf =
       intervalOfKind conf
         (Widen.down (sub (Widen.up (meanDiff u) : W) (mul (critOf crit u conf) (Widen.up (semF u)))) : F)
@@ -1360,7 +1539,7 @@ theorem unpaired_ciMean_isPanic (crit : Crit XR) (u : Unpaired XR) (conf : Confi
   obtain ⟨β, hβ, hβ0⟩ := s2n_of_finite u.b h2 hB
   have hd : Unpaired.dofF u = Unpaired.effectiveDof (fin α) (fin β) (fin u.a.count) (fin u.b.count) := by
     unfold Unpaired.dofF; rw [hα, hβ]; rfl
-  rw [up_eq, hd] at h5 h6
+  rw [Unpaired.dofW_eq_dofF_XR, hd] at h5 h6
   rcases effectiveDof_safe α β u.a.count u.b.count hα0 hβ0 h1 h2 with h | h | ⟨r, h, hr⟩ <;>
     rw [h] at h5 h6
   · simp at h5
@@ -1444,7 +1623,8 @@ theorem Unpaired.ciMean_isPanic_Rex (crit : Crit Rex) (u : Unpaired Rex) (conf :
   obtain ⟨h1, h2, _, _, h5⟩ := (Unpaired.ciMean_isPanic_iff crit u conf).mp hp
   rcases h5 with ⟨_, h6⟩ | h5
   · have hh := Unpaired.dofF_pos_Rex u h1 h2 hpos
-    have : gt (Widen.up (Unpaired.dofF u) : Rex) (NumOps.zero : Rex) = true := by simpa using hh
+    have : gt (Unpaired.dofW u : Rex) (NumOps.zero : Rex) = true := by
+      rw [Unpaired.dofW_eq_dofF_RR]; simpa using hh
     rw [this] at h6; cases h6
   · simp [hq] at h5
 
@@ -1496,8 +1676,8 @@ theorem Unpaired.ciMean_eq_of_ok {F W : Type} [Scalar F] [Scalar W] [Widen F W] 
     by_contra hq
     have := hiff.mpr ⟨h1, h2, h3, h4, Or.inr (by simpa using hq)⟩
     rw [hnp] at this; cases this
-  have hd : lt (Widen.up (Unpaired.dofF u) : W) (populationLimit : W) = true →
-      gt (Widen.up (Unpaired.dofF u) : W) (zero : W) = true := by
+  have hd : lt (Unpaired.dofW u : W) (populationLimit : W) = true →
+      gt (Unpaired.dofW u : W) (zero : W) = true := by
     intro hl
     by_contra hg
     have := hiff.mpr ⟨h1, h2, h3, h4, Or.inl ⟨hl, by simpa using hg⟩⟩
@@ -1568,7 +1748,7 @@ theorem unpaired_ciMean_ok_finIv (crit : Crit XR) (u : Unpaired XR) (conf : Conf
   obtain ⟨_, h⟩ := Unpaired.ciMean_eq_of_ok h
   obtain ⟨m, hm'⟩ := (isFinite_iff _).mp hm
   obtain ⟨s, hs'⟩ := (isFinite_iff _).mp hs
-  obtain ⟨c, hc'⟩ := (isFinite_iff _).mp (hc (critReq conf (Widen.up (Unpaired.dofF u))))
+  obtain ⟨c, hc'⟩ := (isFinite_iff _).mp (hc (critReq conf (Unpaired.dofW u)))
   simp only [up_eq, down_eq] at h
   rw [hm', hs', show Unpaired.critOf crit u conf = fin c from hc'] at h
   simp only [mul_fin_fin, sub_fin_fin, add_fin_fin] at h
@@ -1868,8 +2048,24 @@ theorem quantile_ci_ok_noNaN (crit : Crit XR) (conf : Confidence XR) (xs : List 
     exact hall a ((List.mergeSort_perm xs _).mem_iff.mp (List.mem_of_getElem? hj))
   cases idx <;> cases i <;> simp only [Quantile.PickOk] at hpick
   · exact ⟨hmem _ _ hpick.1, hmem _ _ hpick.2.1⟩
-  · exact hmem _ _ hpick
-  · exact hmem _ _ hpick
+  · exact hmem _ _ hpick.1
+  · exact hmem _ _ hpick.1
+
+/-- on `XR` the one value that is not comparable with itself is the NaN -/
+theorem le_self_iff (x : XR) : Cmp.le x x = true ↔ x ≠ nan := by
+  cases x <;> simp
+
+theorem le_self_eq_false_iff (x : XR) : Cmp.le x x = false ↔ x = nan := by
+  cases x <;> simp
+
+theorem selfCmp_iff_noNaN (i : Interval XR) : Quantile.SelfCmp i ↔ NoNaN i := by
+  cases i <;> simp only [Quantile.SelfCmp, NoNaN, le_self_iff]
+
+/-- `ci_sorted_unchecked` on `XR`, for any slice (sorted or not, with or without NaN), any critical
+    value and any confidence: an `Ok` never has a NaN bound -/
+theorem ciSortedUnchecked_ok_noNaN (crit : Crit XR) (conf : Confidence XR) (xs : List XR) (q : XR)
+    {i : Interval XR} (h : Quantile.ciSortedUnchecked crit conf xs q = .ok i) : NoNaN i :=
+  (selfCmp_iff_noNaN i).mp (Quantile.ciSortedUnchecked_ok_selfCmp h)
 
 end XR
 
@@ -1943,7 +2139,7 @@ theorem unpaired_ok : ∃ lo hi : Rex,
   have hd : 0 < (Unpaired.dofF (⟨a12, a12⟩ : Unpaired Rex)).val :=
     Unpaired.dofF_pos_Rex _ (by simp [a12]) (by simp [a12]) (Or.inl (by rw [s2n_a12]; norm_num))
   rw [Unpaired.ciMean_eq _ _ _ (by simp [a12]) (by simp [a12]) rfl rfl conf95_probOk
-    (fun _ => by simpa using hd)]
+    (fun _ => by rw [Unpaired.dofW_eq_dofF_RR]; simpa using hd)]
   refine ⟨_, _, twoSided_ok_Rex _ _ _ ?_, hsem.ne'⟩
   simp only [RR.down_eq, RR.up_eq, RR.sub_val, RR.add_val, RR.mul_val, id, Unpaired.critOf, constCrit]
   have : 0 ≤ 2 * (Unpaired.semF (⟨a12, a12⟩ : Unpaired Rex)).val := mul_nonneg (by norm_num) hsem.le
@@ -2100,6 +2296,34 @@ theorem harmonic_ok_pinf : ∃ r : ℝ, 0 < r ∧
   rw [twoSided_ok_XR _ _ _ (by simpa using hlt)]
   simp only [Outcome.bind_ok, e1, e2]
   exact twoSided_ok_XR _ _ _ (by simp)
+
+/-- ten `XR` observations, not sorted, a NaN at rank 0, the number 5 at rank 5 -/
+def xsNanOff : List XR :=
+  [XR.nan, XR.fin 9, XR.fin 2, XR.fin 3, XR.fin 4, XR.fin 5, XR.fin 6, XR.fin 7, XR.fin 8, XR.fin 1]
+
+/-- ten `XR` observations with a NaN at rank 5 -/
+def xsNanAt : List XR :=
+  [XR.fin 0, XR.fin 1, XR.fin 2, XR.fin 3, XR.fin 4, XR.nan, XR.fin 6, XR.fin 7, XR.fin 8, XR.fin 9]
+
+/-- an `Ok` of `ci_sorted_unchecked` on an unsorted `XR` slice that holds a NaN away from the
+    selected ranks (both ranks are 5) -/
+theorem sortedUnchecked_ok_XR :
+    Quantile.ciSortedUnchecked (fun _ => XR.fin 0) (.twoSided (XR.fin 0.95)) xsNanOff (XR.fin 0.5) =
+      .ok (.twoSided (XR.fin 5) (XR.fin 5)) := by
+  have hidx : Quantile.ciIndices (fun _ => XR.fin 0) (.twoSided (XR.fin 0.95)) xsNanOff.length
+      (XR.fin 0.5) = .ok (.twoSided 5 5) := ciIndices_ok
+  rw [Quantile.ciSortedUnchecked_of_good_q _ _ _ (Quantile.ciIndices_eq_ok hidx).1, hidx,
+    Outcome.bind_ok]
+  have h5 : xsNanOff[5]? = some (XR.fin 5) := rfl
+  simp only [Quantile.bound_of_le (W := XR) h5 (by simp), Outcome.bind_ok]
+  simp [Interval.new, liftI]
+
+/-- a NaN at the selected rank 5: `InvalidInputData` -/
+theorem sortedUnchecked_nan_XR :
+    Quantile.ciSortedUnchecked (fun _ => XR.fin 0) (.twoSided (XR.fin 0.95)) xsNanAt (XR.fin 0.5) =
+      .err .invalidInputData :=
+  Quantile.ciSortedUnchecked_of_incomparable (idx := .twoSided 5 5) (r := 5) (x := XR.nan)
+    ciIndices_ok (Or.inl rfl) rfl (by simp)
 
 end Examples
 
